@@ -10,6 +10,8 @@ Script (see coq/Gate/Model.v `run`, harness/src/bin/gates.rs):
      | 8 g t d b  as 6, the message may be relayed min(b,8) times
      | 10 c m sz  at sim start module c calls m.spawner().gate(name, sz): sz new gates (next ids) owned by module m
      | 11 c a b l br  at sim start module c calls a.connect(b, channel)
+     | 12 a b l br q / 13 c a b l br q  as 9 / 11 with drop behaviour q: 0 Drop, 1 Queue(None), q >= 2 Queue(Some(q-2))
+     | 14 m  m != 0: arrival times are reported as 0 (messages wait in channel queues; how long is C07's subject)
 Build-time operations (1-5, 9) run first, in order, then the run-time ones (6-8, 10, 11); records come out in that order.
 """
 import itertools
@@ -20,10 +22,11 @@ COQ_MODULE = "Gate.Model"; RUN_FN = "run"
 THEOREMS = ["C08_invariant_reachable", "C08_sym", "C08_fill_order", "C08_degree_le_2", "C08_slots_monotone", "C08_third_peer_rejected",
             "C08_connect_symmetric", "C08_connect_idempotent", "C08_walk_from_endpoint_terminates",
             "C08_mirror", "C08_delivered_once_to_far_owner", "C08_both_directions", "C08_relay_header_per_leg",
-            "C08_script_deliveries", "C08_path_delay_sum", "C08_spawned_gates_owner"]
+            "C08_script_deliveries", "C08_path_delay_sum", "C08_spawned_gates_owner",
+            "C08_queue_preserves_connection", "C08_queued_message_resumes_on_offered_connection"]
 QUICK_N = 6000; THOROUGH_N = 150000
 CLAIM = dict(
-    text="Machine-checked (Coq 8.16, axiom-free) for EVERY gate declaration and EVERY sequence of connect calls (any order, orientation, channels, duplicates, rejected calls) on a function-by-function model of gate.rs connect/next_hop/PathIter, events.rs handle_with_sink and ctx.rs buf_send_at: the slot tables stay symmetric (g.slot i = (h,j) implies h.slot j = (g,i), same channel), slot 1 is used only after slot 0, a gate has at most two distinct peers, established connections are never overwritten and a third peer is rejected in either orientation; a.connect(b) and b.connect(a) yield the same table and a repeated connect is a no-op; the walk from any non-transit gate terminates within fuel 2*|gates|+1 (injective step + no predecessor of the start state, pigeonhole); path_iter from the far end is the exact mirror image (gates and channels reversed); a message sent on a non-transit gate yields exactly one delivery, to the owner of the far-end gate, at send time + sum over the hops of (transmission time of the message at the hop's bitrate + latency), with header sender/receiver/last_gate as specified (for ANY header the message object carried before: the sender is the module that performed this send), and the same total delay in the opposite direction; gates created at run time through Spawner::gate belong to the module whose spawner was used, whoever executed the call and whatever runs afterwards, and all statements cover them; for a relayed message object (echoed back or forwarded onto another chain by the receiving module, up to a hop budget) every leg's header names that leg's sender and receiver. The model is tied to the des crate by differential runs (extracted model vs real Sim/Gate/Channel/send_at on generated scripts: chains of 1..12 hops over 1..6 modules and clusters, all permutations x orientations for <= 5 hops in the thorough tier, hops with latency and/or bitrate, immediate/delayed sends, both directions also simultaneously, forwarding rules that re-send the received Message object, gates created and connected at run time inside at_sim_start through Spawner::gate by the module itself / its parent / a third module) plus an independent monitor that states C08 on the implementation's output alone.",
+    text="Machine-checked (Coq 8.16, axiom-free) for EVERY gate declaration and EVERY sequence of connect calls (any order, orientation, channels, duplicates, rejected calls) on a function-by-function model of gate.rs connect/next_hop/PathIter, events.rs handle_with_sink and ctx.rs buf_send_at: the slot tables stay symmetric (g.slot i = (h,j) implies h.slot j = (g,i), same channel), slot 1 is used only after slot 0, a gate has at most two distinct peers, established connections are never overwritten and a third peer is rejected in either orientation; a.connect(b) and b.connect(a) yield the same table and a repeated connect is a no-op; the walk from any non-transit gate terminates within fuel 2*|gates|+1 (injective step + no predecessor of the start state, pigeonhole); path_iter from the far end is the exact mirror image (gates and channels reversed); a message sent on a non-transit gate yields exactly one delivery, to the owner of the far-end gate, at send time + sum over the hops of (transmission time of the message at the hop's bitrate + latency), with header sender/receiver/last_gate as specified (for ANY header the message object carried before: the sender is the module that performed this send), and the same total delay in the opposite direction; gates created at run time through Spawner::gate belong to the module whose spawner was used, whoever executed the call and whatever runs afterwards, and all statements cover them; a message that waits in the queue of a busy Queue-policy channel resumes on exactly the connection it was offered on (Buffer enqueue/dequeue keep (target gate, slot index) in FIFO order, the channel handle is restored) and its routing does not depend on when it continues; for a relayed message object (echoed back or forwarded onto another chain by the receiving module, up to a hop budget) every leg's header names that leg's sender and receiver. The model is tied to the des crate by differential runs (extracted model vs real Sim/Gate/Channel/send_at on generated scripts: chains of 1..12 hops over 1..6 modules and clusters, all permutations x orientations for <= 5 hops in the thorough tier, hops with latency and/or bitrate, immediate/delayed sends, both directions also simultaneously, forwarding rules that re-send the received Message object, Queue(None)/Queue(limit) hops with same-instant bursts so that messages wait in queues on first/middle/last hops (arrival times not compared there, routing is), gates created and connected at run time inside at_sim_start through Spawner::gate by the module itself / its parent / a third module) plus an independent monitor that states C08 on the implementation's output alone.",
     note="Trusted: Coq kernel; extraction (ExtrOcamlBasic only) cross-checked in-Coq by vm_compute on a sample each run; harness/generator quality bounds the tie to the code. Channels have jitter 0 and bitrates whose transmission time for the 72-byte message is a whole number of ns; the per-hop delay is that of an idle channel: each direction of a hop has its own Channel instance (checked: simultaneous opposite-direction traffic), and the statement covers runs where the traffic of one direction of a hop does not overlap in time (a message meeting a busy channel is C07's subject); inactive owners are C09. Observed and modelled, outside the property text: the full-gate assert of connect fires while both gate mutexes are held, so a caught third-peer panic poisons both gates (every later kind/path_iter/connect on them panics, and connect(x, poisoned) poisons x as well).",
     technique="Coq invariant proof over all connect sequences (Sym/Fill/NoSelf/Distinct), NoDup pigeonhole termination, path reversal lemma + differential correspondence check",
     design="6/C08")
@@ -35,7 +38,9 @@ RULE = ("scripts declare 1..6 modules and gate groups (single gates and clusters
         " (the received Message object is echoed back or forwarded onto another chain, immediately or delayed, up to a hop"
         " budget) and every leg's header is checked; ~20 % of the scripts create gates at run time"
         " through Spawner::gate (by the module itself, by a parent on its child, through a held ModuleRef) and connect them"
-        " inside at_sim_start; in ~30 % of the scripts hops have a bitrate (idle-hop delay = tx(72 bytes)"
+        " inside at_sim_start; ~12 % of the scripts put Queue(None)/Queue(limit) channels"
+        " on first/middle/last hops and send bursts in one instant so that messages wait in those queues (times not reported"
+        " there, routing is); in ~30 % of the scripts hops have a bitrate (idle-hop delay = tx(72 bytes)"
         " + latency, tx an exact number of ns, latency 0 included) with simultaneous sends from both ends and the traffic of"
         " one direction spaced so that no message meets a busy channel; non-trivial = distinct script that hits at least three"
         " targeted mechanisms and delivers a message over, or enumerates, a path of at least two hops")
@@ -68,7 +73,12 @@ def chan_of(o):
     """channel argument of a connect op"""
     if o[3] == 0:
         return None
-    return (o[3] - 1, norm_br(o[4]) if o[0] == 9 else 0)
+    return (o[3] - 1, norm_br(o[4]) if o[0] == 9 else 0, o[6] if len(o) > 6 else 0)
+
+
+def queue_cap(ch):
+    """bytes a busy channel can buffer: 0 (Drop), None (unbounded) or the limit"""
+    return 0 if ch[2] == 0 else None if ch[2] == 1 else ch[2] - 2
 
 
 # ----------------------------------------------------------------------------- structure
@@ -79,7 +89,7 @@ def split(script):
     hdr = script[:2 + L]
     ops, i = [], 2 + L
     while i < len(script):
-        k = {1: 4, 2: 2, 3: 2, 4: 2, 5: 2, 6: 4, 7: 4, 8: 5, 9: 5, 10: 4, 11: 6}.get(script[i])
+        k = {1: 4, 2: 2, 3: 2, 4: 2, 5: 2, 6: 4, 7: 4, 8: 5, 9: 5, 10: 4, 11: 6, 12: 6, 13: 7, 14: 2}.get(script[i])
         if k is None or i + k > len(script):
             break
         ops.append(script[i:i + k]); i += k
@@ -112,15 +122,17 @@ def phased(hdr, ops):
     """operations in execution order (build time first), run-time connects rewritten to the connect form
     [9 a b l br] with the executing module appended, spawns as [10, caller, target, size]"""
     nm = nmod_of(hdr)
-    p1 = [o for o in ops if o[0] in (1, 2, 3, 4, 5, 9)]
+    p1 = [[9, o[1], o[2], o[3], o[4], -1, o[5]] if o[0] == 12 else o for o in ops if o[0] in (1, 2, 3, 4, 5, 9, 12)]
     p2 = []
     for o in ops:
-        if o[0] in (6, 7, 8):
+        if o[0] in (6, 7, 8, 14):
             p2.append(o)
+        elif o[0] == 13:
+            p2.append([9, o[2], o[3], o[4], o[5], o[1] % nm, o[6]])
         elif o[0] == 10:
             p2.append([10, o[1] % nm, o[2] % nm, max(1, min(6, o[3]))])
         elif o[0] == 11:
-            p2.append([9, o[2], o[3], o[4], o[5], o[1] % nm])
+            p2.append([9, o[2], o[3], o[4], o[5], o[1] % nm, 0])
     return p1 + p2
 
 
@@ -157,6 +169,16 @@ def pretty(script):
             parts.append("relay(via g%d -> resend on g%d after %d)" % (o[1], o[2], o[3]))
         elif o[0] == 10:
             parts.append("at start m%d: m%d.spawner().gate(size=%d)" % (o[1] % nmod_of(hdr), o[2] % nmod_of(hdr), max(1, min(6, o[3]))))
+        elif o[0] == 14:
+            parts.append("report-no-times" if o[1] else "report-times")
+        elif o[0] == 12:
+            br = norm_br(o[4])
+            parts.append("g%d.connect(g%d%s)" % (o[1], o[2], "" if o[3] == 0 else ",lat=%dns,bitrate=%d(tx=%dns),%s" % (
+                o[3] - 1, br, tx_ns(br), ["Drop", "Queue(None)"][o[5]] if o[5] < 2 else "Queue(%d)" % (o[5] - 2))))
+        elif o[0] == 13:
+            br = norm_br(o[5])
+            parts.append("at start m%d: g%d.connect(g%d%s)" % (o[1] % nmod_of(hdr), o[2], o[3], "" if o[4] == 0 else ",lat=%dns,bitrate=%d(tx=%dns),%s" % (
+                o[4] - 1, br, tx_ns(br), ["Drop", "Queue(None)"][o[6]] if o[6] < 2 else "Queue(%d)" % (o[6] - 2))))
         elif o[0] == 11:
             br = norm_br(o[5])
             parts.append("at start m%d: g%d.connect(g%d%s)" % (o[1] % nmod_of(hdr), o[2], o[3], "" if o[4] == 0 else ",lat=%dns%s" % (
@@ -227,7 +249,7 @@ def records(script, out):
                     raise ValueError("truncated path_iter record")
                 ln = 3 + 3 * out[i + 2]
         else:
-            ln = {1: 1, 2: 2, 3: 2, 4: 2, 6: 1, 7: 1, 8: 1, 9: 2, 14: 1, 16: 1}.get(tag)
+            ln = {1: 1, 2: 2, 3: 2, 4: 2, 6: 1, 7: 1, 8: 1, 9: 2, 14: 1, 16: 1, 17: 1}.get(tag)
         if ln is None or i + ln > len(out):
             raise ValueError("bad record tag %s at %d" % (tag, i))
         recs.append((o, out[i:i + ln])); i += ln
@@ -261,9 +283,9 @@ def itinerary(G, own, rules, g, t, d, b):
         p = G.path(gate)
         far = p[-1][0] if p else gate
         now, prev, hops = when, gate, []
-        for h, ch in p:
+        for j, (h, ch) in enumerate(p):
             if ch is not None:
-                hops.append((prev, h, now, tx_ns(ch[1])))
+                hops.append((prev, h, now, tx_ns(ch[1]), j, len(p), ch))
             now += hop_delay(ch); prev = h
         out.append((leg, gate, cur, when, (own[far], now, far), hops))
         r = rules.get(far)
@@ -278,7 +300,7 @@ def traffic(G, own, rules, sends):
     occ = {}
     for (g, t, d, b) in sends:
         for _, _, _, _, _, hops in itinerary(G, own, rules, g, t, d, b):
-            for x, y, enter, tx in hops:
+            for x, y, enter, tx, _, _, _ in hops:
                 occ.setdefault((x, y), []).append((enter, tx))
     for v in occ.values():
         v.sort()
@@ -293,6 +315,35 @@ def same_direction_overlap(occ):
             if t1 > 0 and e2 <= e1 + t1:
                 return True
     return False
+
+
+def waiting(G, own, rules, sends):
+    """Hops on which some message finds the channel busy (computed as if nobody had waited before, which is right
+    for the first such encounter).  -> (hops [(x, y, channel, position, path length)], n legs).  What a busy
+    channel does with the message is its drop behaviour; how long a queued message waits is C07's subject."""
+    occ = traffic(G, own, rules, sends)
+    busy = set()
+    for k, v in occ.items():
+        for (e1, t1), (e2, _) in zip(v, v[1:]):
+            if t1 > 0 and e2 <= e1 + t1:
+                busy.add(k)
+    hops, nlegs = [], 0
+    for (g, t, d, b) in sends:
+        for leg in itinerary(G, own, rules, g, t, d, b):
+            nlegs += 1
+            for x, y, _, _, j, nh, ch in leg[5]:
+                if (x, y) in busy:
+                    hops.append((x, y, ch, j, nh))
+    return hops, nlegs
+
+
+def queues_hold_everything(G, nlegs):
+    """every hop with a bitrate queues, with room for all messages of the script: nothing can be dropped"""
+    for adj in G.adj:
+        for _, ch in adj:
+            if ch is not None and ch[1] and (queue_cap(ch) == 0 or (queue_cap(ch) is not None and queue_cap(ch) < 72 * nlegs)):
+                return False
+    return True
 
 
 def opposite_overlap(occ):
@@ -346,12 +397,18 @@ def monitor(script, out):
     sends = []
     rules = {}           # arrival gate -> (out gate, delay); first rule wins
     nfin = final_count(hdr, ops)
+    mask = False
     for o, r in recs:
         if o[0] == 10:
             # m.spawner().gate(..): the new gates belong to module m, whoever executed the call
             if r != [16]:
                 return "spawner().gate(..) on m%d executed by m%d failed: %s" % (o[2], o[1], r)
             own += [o[2]] * o[3]; G.grow(o[3]); n += o[3]
+            continue
+        if o[0] == 14:
+            if r != [17]:
+                return "mode record %s" % r
+            mask = mask or o[1] != 0
             continue
         if o[0] == 7:
             if r != ([14] if o[1] < n and o[2] < n else [7]):
@@ -441,9 +498,12 @@ def monitor(script, out):
         return None
     if extra:
         return "run failed or unexpected records in the delivery log: %s" % extra
-    if same_direction_overlap(traffic(G, own, rules, sends)):
-        # some message meets a busy channel: what happens then is C07's subject, C08 does not say
+    busy_hops, nlegs = waiting(G, own, rules, sends)
+    waits = bool(busy_hops)
+    if waits and not queues_hold_everything(G, nlegs):
+        # some message meets a busy channel that may drop it: what happens then is C07's subject, C08 does not say
         return None
+    # (messages that only WAIT in a queue must still reach the far end; only their arrival time is C07's business)
     expected = set()
     for k, (g, t, d, b) in enumerate(sends):
         for leg, gate, cur, when, res, _ in itinerary(G, own, rules, g, t, d, b):
@@ -460,6 +520,10 @@ def monitor(script, out):
             if len(got) != 1:
                 return "%s was delivered %d times" % (what, len(got))
             to, arrive, far = res
+            if mask:
+                arrive = 0                      # not reported
+            elif waits:
+                arrive = got[0][1]              # somebody waited in a queue: arrival times are not C08's to predict
             exp = [to, arrive, cur, to, far + 1]
             if got[0] != exp:
                 names = ["receiving module", "arrival time (send + sum of tx + latency per hop)", "header.sender (the module that performed this send)",
@@ -500,7 +564,7 @@ def mechanisms(script, out):
             continue
         if o[0] in (1, 9):
             a, b = o[1], o[2]
-            if len(o) == 6: m.add("runtime_connect")
+            if len(o) == 7 and o[5] >= 0: m.add("runtime_connect")
             if a == b:
                 m.add("self_connect")
             elif b in slots[a]:
@@ -537,7 +601,22 @@ def mechanisms(script, out):
                 m.add("hop_with_bitrate")
                 if ch[0] == 0: m.add("zero_latency_bitrate_hop")
         if opposite_overlap(occ): m.add("simultaneous_opposite_directions")
-        if same_direction_overlap(occ): m.add("same_direction_overlap_out_of_scope")
+        busy_hops, nlegs = waiting(G, own, rules, snds)
+        for (x, y), v in occ.items():
+            ch = dict(G.adj[x]).get(y)
+            if ch and ch[1] and ch[2] == 1: m.add("queue_unbounded_hop")
+            if ch and ch[1] and ch[2] >= 2: m.add("queue_limited_hop")
+            if any(e1 == e2 for (e1, _), (e2, _) in zip(v, v[1:])): m.add("burst_same_instant_same_direction")
+        if busy_hops and not queues_hold_everything(G, nlegs):
+            m.add("same_direction_overlap_out_of_scope")
+        elif busy_hops:
+            m.add("message_waited_in_queue")
+            for x, y, ch, j, nh in busy_hops:
+                m.add("queued_hop_only" if nh == 1 else "queued_hop_first" if j == 0 else "queued_hop_last" if j == nh - 1 else "queued_hop_middle")
+                if x in slots[y]:
+                    # slot of the target gate that points back (Connection::endpoint_id of the queued connection)
+                    m.add("queued_target_backpointer_slot%d" % slots[y].index(x))
+                    if len(slots[y]) == 2: m.add("queued_onto_transit_gate_slot%d" % slots[y].index(x))
     ends = {}
     for o in ops:
         if o[0] not in (6, 8) or o[1] >= n: continue
@@ -631,7 +710,9 @@ def rand_time(rng):
     return rng.choice([1000, 2500000, 10 ** 9, rng.randint(1, 10 ** 10)])
 
 
-def gen_script(rng, malformed=False, relays=False, bitrates=False, spawns=False):
+def gen_script(rng, malformed=False, relays=False, bitrates=False, spawns=False, queues=False):
+    if queues:
+        return gen_queue_script(rng, relays)
     if spawns:
         return gen_spawn_script(rng, relays, bitrates)
     nmod = rng.randint(1, 6)
@@ -751,6 +832,56 @@ def gen_script(rng, malformed=False, relays=False, bitrates=False, spawns=False)
     return script
 
 
+def gen_queue_script(rng, relays):
+    """QUEUE stream: every hop with a bitrate has a Queue drop behaviour with room for all messages, and bursts of
+    sends in one instant make messages wait in those queues (first / middle / last hop, targets entered through
+    slot 0 and slot 1 because the connect calls come in every order and orientation).  Arrival times are not
+    reported; who receives the message, and through which gate, is."""
+    nmod = rng.randint(1, 6)
+    nch = rng.choice([1, 1, 2])
+    grp, n = [], 0
+    hops = [rng.choice([1, 1, 2, 2, 3, 3, 4, 5]) for _ in range(nch)]
+    while n < sum(k + 1 for k in hops):
+        sz = 1 if rng.random() < 0.7 else rng.randint(2, 4)
+        grp += [rng.randrange(nmod), sz]; n += sz
+    ids = list(range(n)); rng.shuffle(ids)
+    chains, pos = [], 0
+    for k in hops:
+        chains.append(ids[pos:pos + k + 1]); pos += k + 1
+    conns = []
+    for c in chains:
+        qh = rng.randrange(len(c) - 1)                  # this hop certainly queues
+        for j, (x, y) in enumerate(zip(c, c[1:])):
+            a, b = (x, y) if rng.random() < 0.5 else (y, x)
+            if j == qh or rng.random() < 0.35:
+                br = rng.choice([576 * 10 ** 9, 72 * 10 ** 9, 576 * 10 ** 6, 576000, 576])
+                l = 1 if rng.random() < 0.5 else rand_lat(rng) + 1
+                q = 1 if rng.random() < 0.7 else 2 + 72 * rng.choice([64, 100])
+                conns.append([12, a, b, l, br, q] if rng.random() < 0.8 else [13, rng.randrange(nmod), a, b, l, br, q])
+            else:
+                l = 0 if rng.random() < 0.5 else rand_lat(rng) + 1
+                conns.append([1, a, b, l] if rng.random() < 0.8 else [11, rng.randrange(nmod), a, b, l, 0])
+    mode = rng.random()
+    if mode < 0.7: rng.shuffle(conns)
+    elif mode < 0.85: conns.reverse()
+    ops = [[14, 1]] + conns
+    for c in chains:
+        a, b = c[0], c[-1]
+        ops += [[5, a], [5, b]]
+        t, d = rand_time(rng), rng.choice([0, 0, 3])
+        for _ in range(rng.randint(2, 4)):               # a burst in one instant: all but the first wait
+            ops.append([6, a, t, d])
+        if rng.random() < 0.6:
+            for _ in range(rng.randint(1, 3)):
+                ops.append([6, b, t if rng.random() < 0.5 else rand_time(rng), d])
+        if relays:
+            e = rng.choice([a, b])
+            ops.append([7, e, e if rng.random() < 0.6 else rng.choice([c2[-1] for c2 in chains]), rng.choice([0, 0, 5])])
+            for _ in range(rng.randint(1, 2)):
+                ops.append([8, a if e == b else b, t, d, rng.randint(1, 2)])
+    return join([nmod, len(grp)] + grp, ops)
+
+
 def gen_spawn_script(rng, relays, bitrates):
     """RUN-TIME wiring: gates created inside at_sim_start through Spawner::gate - by the module itself, by a parent
     on its child (current().child(..)) or through a held ModuleRef - connected at run time (some hops at build
@@ -866,7 +997,7 @@ def gen(rng, n):
         if k >= n // 4: break
         yield s; k += 1
     while k < n:
-        yield gen_script(rng, malformed=(rng.random() < 0.15), relays=(rng.random() < 0.3), bitrates=(rng.random() < 0.3), spawns=(rng.random() < 0.2)); k += 1
+        yield gen_script(rng, malformed=(rng.random() < 0.15), relays=(rng.random() < 0.3), bitrates=(rng.random() < 0.3), spawns=(rng.random() < 0.2), queues=(rng.random() < 0.12)); k += 1
 
 
 def exhaustive(maxhops=5):
